@@ -75,13 +75,13 @@ func (t *TSO) Snapshot() []TSRecord {
 // crosses the simulator.
 type PD struct {
 	pd.Client
-	Sim      *Sim
-	Net      *Net
-	ID       int
-	TSO      *TSO
-	lat      *Hasher
-	n        int
-	mu       sync.Mutex
+	Sim *Sim
+	Net *Net
+	ID  int
+	TSO *TSO
+	lat *Hasher
+	n   int
+	mu  sync.Mutex
 	// ParkQueries makes region/store queries cross the simulator as events
 	// (otherwise they are answered in place).
 	ParkQueries bool
@@ -136,6 +136,10 @@ func (p *PD) nextKey(kind string) string {
 func (p *PD) startTS(ctx context.Context) *tsFuture {
 	f := &tsFuture{p: p, ch: make(chan tsResult, 1), ctx: ctx}
 	if p.Net.IsCut(p.ID) {
+		f.ch <- tsResult{0, ErrSimCut}
+		return f
+	}
+	if p.Net.TSOFate(p.ID) != Deliver {
 		f.ch <- tsResult{0, ErrSimCut}
 		return f
 	}
